@@ -45,18 +45,18 @@ Definition pg_store := list (N * pg_cell).
 
 Inductive pg_err := PeQ (* QPDFExc *) | PeRt (* std::runtime_error *) | PeLogic (* std::logic_error *) | PeUnm.
 
-Definition k_Kids : pg_key := [75;105;100;115].
-Definition k_Count : pg_key := [67;111;117;110;116].
-Definition k_Parent : pg_key := [80;97;114;101;110;116].
-Definition k_Type : pg_key := [84;121;112;101].
-Definition k_Pages : pg_key := [80;97;103;101;115].
-Definition k_Page : pg_key := [80;97;103;101].
-Definition k_MediaBox : pg_key := [77;101;100;105;97;66;111;120].
-Definition k_CropBox : pg_key := [67;114;111;112;66;111;120].
-Definition k_Resources : pg_key := [82;101;115;111;117;114;99;101;115].
-Definition k_Rotate : pg_key := [82;111;116;97;116;101].
-Definition k_Annots : pg_key := [65;110;110;111;116;115].
-Definition k_Mk : pg_key := [77;107].
+Definition pgk_Kids : pg_key := [75;105;100;115].
+Definition pgk_Count : pg_key := [67;111;117;110;116].
+Definition pgk_Parent : pg_key := [80;97;114;101;110;116].
+Definition pgk_Type : pg_key := [84;121;112;101].
+Definition pgk_Pages : pg_key := [80;97;103;101;115].
+Definition pgk_Page : pg_key := [80;97;103;101].
+Definition pgk_MediaBox : pg_key := [77;101;100;105;97;66;111;120].
+Definition pgk_CropBox : pg_key := [67;114;111;112;66;111;120].
+Definition pgk_Resources : pg_key := [82;101;115;111;117;114;99;101;115].
+Definition pgk_Rotate : pg_key := [82;111;116;97;116;101].
+Definition pgk_Annots : pg_key := [65;110;110;111;116;115].
+Definition pgk_Mk : pg_key := [77;107].
 
 Fixpoint pg_key_cmp (a b : pg_key) : comparison :=
   match a, b with
@@ -143,7 +143,7 @@ Definition pg_name_is (s : pg_store) (v : pg_val) (n : pg_key) : bool :=
   match pg_rv s v with PvName x => pg_key_eqb x n | _ => false end.
 (* isDictionaryOfType *)
 Definition pg_is_dict_of_type (s : pg_store) (h : pg_val) (t : pg_key) : bool :=
-  pg_is_dict s h && pg_name_is s (pg_hget s h k_Type) t.
+  pg_is_dict s h && pg_name_is s (pg_hget s h pgk_Type) t.
 Definition pg_is_int (s : pg_store) (v : pg_val) : bool :=
   match pg_rv s v with PvInt _ => true | _ => false end.
 (* isRectangle *)
@@ -187,9 +187,9 @@ Definition pg_memN (x : N) (l : list N) : bool := existsb (N.eqb x) l.
 
 (* the (direct) /Kids array of node i *)
 Definition pg_kids_of (s : pg_store) (i : N) : list pg_val :=
-  match pg_hget s (PvRef i) k_Kids with PvArr l => l | _ => [] end.
+  match pg_hget s (PvRef i) pgk_Kids with PvArr l => l | _ => [] end.
 Definition pg_set_kid (s : pg_store) (node : N) (idx : nat) (v : pg_val) : pg_store :=
-  pg_obj_set_key s node k_Kids (PvArr (pg_list_set (pg_kids_of s node) idx v)).
+  pg_obj_set_key s node pgk_Kids (PvArr (pg_list_set (pg_kids_of s node) idx v)).
 
 (* ---------------------------------------------------------------- per-document state *)
 Record pg_doc := mkPgDoc {
@@ -220,7 +220,7 @@ Definition pd_with_reg (p : pg_doc) (m : list (N * list N)) : pg_doc :=
 Definition pg_init_doc (s : pg_store) (root : N) : pg_doc := mkPgDoc s root [] [] false false [] [].
 
 (* getRoot().getKey("/Pages") *)
-Definition pg_root_pages (p : pg_doc) : pg_val := pg_hget (pd_store p) (PvRef (pd_root p)) k_Pages.
+Definition pg_root_pages (p : pg_doc) : pg_val := pg_hget (pd_store p) (PvRef (pd_root p)) pgk_Pages.
 
 (* position map *)
 Fixpoint pg_pos_find (m : list (N * Z)) (i : N) : option Z :=
@@ -238,72 +238,72 @@ Fixpoint pg_pos_erase (m : list (N * Z)) (i : N) : list (N * Z) :=
 
 (* ---------------------------------------------------------------- getAllPagesInternal *)
 Record pg_gst := mkPgGst {
-  g_s : pg_store;
-  g_pages : list N;      (* all_pages, reversed *)
-  g_vis : list N;        (* visited *)
-  g_seen : list N;       (* seen *)
-  g_inv : bool;          (* invalid_page_found *)
-  g_err : option pg_err
+  pgg_s : pg_store;
+  pgg_pages : list N;      (* all_pages, reversed *)
+  pgg_vis : list N;        (* visited *)
+  pgg_seen : list N;       (* seen *)
+  pgg_inv : bool;          (* invalid_page_found *)
+  pgg_err : option pg_err
 }.
-Definition g_fail (g : pg_gst) (e : pg_err) : pg_gst :=
-  mkPgGst (g_s g) (g_pages g) (g_vis g) (g_seen g) (g_inv g) (Some e).
+Definition pgg_fail (g : pg_gst) (e : pg_err) : pg_gst :=
+  mkPgGst (pgg_s g) (pgg_pages g) (pgg_vis g) (pgg_seen g) (pgg_inv g) (Some e).
 
 Definition pg_letter : pg_val := PvArr [PvInt 0; PvInt 0; PvInt 612; PvInt 792].
 
 (* the part of the loop body that handles a leaf (no /Kids) *)
 Definition pg_leaf (g : pg_gst) (node : N) (idx : nat) (kid : N) (mb res : bool) : pg_gst :=
-  let s := g_s g in
-  let s := if negb mb && negb (pg_is_rect s (pg_hget s (PvRef kid) k_MediaBox))
-           then pg_obj_set_key s kid k_MediaBox pg_letter else s in
-  let s := if negb res && negb (pg_is_dict s (pg_hget s (PvRef kid) k_Resources))
-           then pg_obj_set_key s kid k_Resources (PvDict []) else s in
-  let annots := pg_hget s (PvRef kid) k_Annots in
+  let s := pgg_s g in
+  let s := if negb mb && negb (pg_is_rect s (pg_hget s (PvRef kid) pgk_MediaBox))
+           then pg_obj_set_key s kid pgk_MediaBox pg_letter else s in
+  let s := if negb res && negb (pg_is_dict s (pg_hget s (PvRef kid) pgk_Resources))
+           then pg_obj_set_key s kid pgk_Resources (PvDict []) else s in
+  let annots := pg_hget s (PvRef kid) pgk_Annots in
   let s := if negb (pg_is_null s annots) && negb (pg_is_arr s annots)
-           then pg_obj_del_key s kid k_Annots else s in
+           then pg_obj_del_key s kid pgk_Annots else s in
   (* duplicate: makeIndirectObject(shallowCopy) replaces the array element *)
   let '(s, kid, seen) :=
-    if pg_memN kid (g_seen g) then
+    if pg_memN kid (pgg_seen g) then
       let '(s', k2) := pg_alloc s (PcObj (pg_rv s (PvRef kid))) in
-      (pg_set_kid s' node idx (PvRef k2), k2, k2 :: g_seen g)
-    else (s, kid, kid :: g_seen g) in
-  let s := if pg_is_dict_of_type s (PvRef kid) k_Page then s
-           else pg_obj_set_key s kid k_Type (PvName k_Page) in
-  mkPgGst s (kid :: g_pages g) (g_vis g) seen (g_inv g) (g_err g).
+      (pg_set_kid s' node idx (PvRef k2), k2, k2 :: pgg_seen g)
+    else (s, kid, kid :: pgg_seen g) in
+  let s := if pg_is_dict_of_type s (PvRef kid) pgk_Page then s
+           else pg_obj_set_key s kid pgk_Type (PvName pgk_Page) in
+  mkPgGst s (kid :: pgg_pages g) (pgg_vis g) seen (pgg_inv g) (pgg_err g).
 
 Fixpoint pg_gapi (fuel : nat) (node : N) (level : nat) (mb res : bool) (g : pg_gst) : pg_gst :=
   match fuel with
-  | O => g_fail g PeUnm
+  | O => pgg_fail g PeUnm
   | S f =>
-    if Nat.ltb 100 (S level) then g_fail g PeQ
-    else if pg_memN node (g_vis g) then g_fail g PeQ
+    if Nat.ltb 100 (S level) then pgg_fail g PeQ
+    else if pg_memN node (pgg_vis g) then pgg_fail g PeQ
     else
-      let s := g_s g in
-      let s := if pg_is_dict_of_type s (PvRef node) k_Pages then s
-               else pg_obj_set_key s node k_Type (PvName k_Pages) in
-      let mb := mb || pg_is_rect s (pg_hget s (PvRef node) k_MediaBox) in
-      let res := res || pg_is_dict s (pg_hget s (PvRef node) k_Resources) in
-      let g := mkPgGst s (g_pages g) (node :: g_vis g) (g_seen g) (g_inv g) (g_err g) in
-      match pg_hget s (PvRef node) k_Kids with
-      | PvRef _ => g_fail g PeUnm            (* indirect /Kids array: not modelled *)
+      let s := pgg_s g in
+      let s := if pg_is_dict_of_type s (PvRef node) pgk_Pages then s
+               else pg_obj_set_key s node pgk_Type (PvName pgk_Pages) in
+      let mb := mb || pg_is_rect s (pg_hget s (PvRef node) pgk_MediaBox) in
+      let res := res || pg_is_dict s (pg_hget s (PvRef node) pgk_Resources) in
+      let g := mkPgGst s (pgg_pages g) (node :: pgg_vis g) (pgg_seen g) (pgg_inv g) (pgg_err g) in
+      match pg_hget s (PvRef node) pgk_Kids with
+      | PvRef _ => pgg_fail g PeUnm            (* indirect /Kids array: not modelled *)
       | PvArr l =>
           fold_left (fun (g : pg_gst) (idx : nat) =>
-            match g_err g with
+            match pgg_err g with
             | Some _ => g
             | None =>
-              match nth_error (pg_kids_of (g_s g) node) idx with
+              match nth_error (pg_kids_of (pgg_s g) node) idx with
               | None => g
               | Some kv =>
-                if negb (pg_is_dict (g_s g) kv) then
-                  mkPgGst (g_s g) (g_pages g) (g_vis g) (g_seen g) true (g_err g)
+                if negb (pg_is_dict (pgg_s g) kv) then
+                  mkPgGst (pgg_s g) (pgg_pages g) (pgg_vis g) (pgg_seen g) true (pgg_err g)
                 else
                   let '(s1, kid) :=
                     match kv with
-                    | PvRef k => (g_s g, k)
-                    | _ => let '(s', k) := pg_alloc (g_s g) (PcObj kv) in
+                    | PvRef k => (pgg_s g, k)
+                    | _ => let '(s', k) := pg_alloc (pgg_s g) (PcObj kv) in
                            (pg_set_kid s' node idx (PvRef k), k)
                     end in
-                  let g1 := mkPgGst s1 (g_pages g) (g_vis g) (g_seen g) (g_inv g) (g_err g) in
-                  if pg_has_key s1 (PvRef kid) k_Kids
+                  let g1 := mkPgGst s1 (pgg_pages g) (pgg_vis g) (pgg_seen g) (pgg_inv g) (pgg_err g) in
+                  if pg_has_key s1 (PvRef kid) pgk_Kids
                   then pg_gapi f kid (S level) mb res g1
                   else pg_leaf g1 node idx kid mb res
               end
@@ -314,7 +314,7 @@ Fixpoint pg_gapi (fuel : nat) (node : N) (level : nat) (mb res : bool) (g : pg_g
 
 (* ---------------------------------------------------------------- pushInheritedAttributesToPageInternal *)
 Definition pg_is_inh (k : pg_key) : bool :=
-  pg_key_eqb k k_MediaBox || pg_key_eqb k k_CropBox || pg_key_eqb k k_Resources || pg_key_eqb k k_Rotate.
+  pg_key_eqb k pgk_MediaBox || pg_key_eqb k pgk_CropBox || pg_key_eqb k pgk_Resources || pg_key_eqb k pgk_Rotate.
 Definition pg_is_scalar (v : pg_val) : bool :=
   match v with PvArr _ | PvDict _ => false | _ => true end.
 
@@ -341,16 +341,16 @@ Fixpoint pg_pia (fuel : nat) (cur : N) (ka : pg_ka) (s : pg_store) : pg_store * 
             else let '(s', k) := pg_alloc s (PcObj oh) in (pg_obj_set_key s' cur key (PvRef k), PvRef k) in
           (pg_obj_del_key s cur key, pg_ka_push ka key oh)
         else (s, ka)) keys (s, ka) in
-    let nk := match pg_rv s (pg_hget s (PvRef cur) k_Kids) with PvArr l => length l | _ => O end in
+    let nk := match pg_rv s (pg_hget s (PvRef cur) pgk_Kids) with PvArr l => length l | _ => O end in
     fold_left (fun '(s, e) idx =>
       match e with
       | Some _ => (s, e)
       | None =>
-        let arr := match pg_rv s (pg_hget s (PvRef cur) k_Kids) with PvArr l => l | _ => [] end in
+        let arr := match pg_rv s (pg_hget s (PvRef cur) pgk_Kids) with PvArr l => l | _ => [] end in
         match nth_error arr idx with
         | None => (s, None)
         | Some kid =>
-          if pg_is_dict_of_type s kid k_Pages then
+          if pg_is_dict_of_type s kid pgk_Pages then
             match kid with
             | PvRef k => pg_pia f k ka s
             | _ => (s, Some PeUnm)             (* direct /Pages node inside /Kids *)
@@ -377,11 +377,11 @@ Fixpoint pg_climb (fuel : nat) (s : pg_store) (pages : pg_val) (seen : list N) (
   match fuel with
   | O => (pages, changed)
   | S f =>
-    if pg_is_dict s pages && pg_has_key s pages k_Parent then
+    if pg_is_dict s pages && pg_has_key s pages pgk_Parent then
       match pages with
       | PvRef i => if pg_memN i seen then (pages, changed)
-                   else pg_climb f s (pg_hget s pages k_Parent) (i :: seen) true
-      | _ => pg_climb f s (pg_hget s pages k_Parent) seen true
+                   else pg_climb f s (pg_hget s pages pgk_Parent) (i :: seen) true
+      | _ => pg_climb f s (pg_hget s pages pgk_Parent) seen true
       end
     else (pages, changed)
   end.
@@ -391,17 +391,17 @@ Definition pg_cache_core (p : pg_doc) : pg_doc * option pg_err * bool :=
   if (match pd_all p with [] => true | _ => false end) && negb (pd_invalid p) then
     let s := pd_store p in
     let '(pages, changed) := pg_climb (S (length s)) s (pg_root_pages p) [] false in
-    let s := if changed then pg_obj_set_key s (pd_root p) k_Pages pages else s in
+    let s := if changed then pg_obj_set_key s (pd_root p) pgk_Pages pages else s in
     let p := pd_with_store p s in
-    if negb (pg_has_key s pages k_Kids) then (p, Some PeQ, false)
+    if negb (pg_has_key s pages pgk_Kids) then (p, Some PeQ, false)
     else
       match pages with
       | PvRef n =>
           let g := pg_gapi 102 n 0 false false (mkPgGst s [] [] [] (pd_invalid p) None) in
-          match g_err g with
-          | Some e => (pd_with_invalid (pd_with_all (pd_with_store p (g_s g)) []) false, Some e, false)
+          match pgg_err g with
+          | Some e => (pd_with_invalid (pd_with_all (pd_with_store p (pgg_s g)) []) false, Some e, false)
           | None =>
-              (pd_with_invalid (pd_with_all (pd_with_store p (g_s g)) (rev' (g_pages g))) (g_inv g), None, g_inv g)
+              (pd_with_invalid (pd_with_all (pd_with_store p (pgg_s g)) (rev' (pgg_pages g))) (pgg_inv g), None, pgg_inv g)
           end
       | _ => (p, Some PeUnm, false)     (* direct /Pages dictionary in the catalog *)
       end
@@ -437,22 +437,22 @@ Definition pg_flatten_tail (p : pg_doc) : pg_doc * option pg_err :=
           | None =>
             match pg_pos_find m pg with
             | Some _ => (s, m, Some PeQ, i)       (* insertPageobjToPage(check_duplicate) *)
-            | None => (pg_obj_set_key s pg k_Parent (PvRef pn), (pg, i) :: m, None, (i + 1)%Z)
+            | None => (pg_obj_set_key s pg pgk_Parent (PvRef pn), (pg, i) :: m, None, (i + 1)%Z)
             end
           end) (pd_all p) (pd_store p, pd_pos p, None, 0%Z) in
       let p := pd_with_pos (pd_with_store p s) m in
       match e with
       | Some _ => (p, e)
       | None =>
-          let s := pg_obj_set_key s pn k_Kids (PvArr (map PvRef (pd_all p))) in
+          let s := pg_obj_set_key s pn pgk_Kids (PvArr (map PvRef (pd_all p))) in
           let p := pd_with_store p s in
           let len := pg_len (pd_all p) in
-          match pg_uint s (pg_hget s (PvRef pn) k_Count) with
+          match pg_uint s (pg_hget s (PvRef pn) pgk_Count) with
           | None => (p, Some PeUnm)
           | Some c =>
               if (c =? len)%Z then (p, None)
               else if pd_invalid p && (len <? c)%Z
-                   then (pd_with_store p (pg_obj_set_key s pn k_Count (PvInt len)), None)
+                   then (pd_with_store p (pg_obj_set_key s pn pgk_Count (PvInt len)), None)
                    else (p, Some PeRt)
           end
       end
@@ -545,15 +545,15 @@ Fixpoint pg_omap_find (m : list (N * N)) (i : N) : option N :=
   match m with [] => None | (j, l) :: m' => if i =? j then Some l else pg_omap_find m' i end.
 
 Record pg_cst := mkPgCst {
-  c_src : pg_doc;
-  c_dst : pg_store;
-  c_omap : list (N * N);
-  c_visiting : list N;
-  c_tocopy : list N;       (* reversed *)
-  c_err : option pg_err
+  pgc_src : pg_doc;
+  pgc_dst : pg_store;
+  pgc_omap : list (N * N);
+  pgc_visiting : list N;
+  pgc_tocopy : list N;       (* reversed *)
+  pgc_err : option pg_err
 }.
-Definition c_fail (c : pg_cst) (e : pg_err) : pg_cst :=
-  mkPgCst (c_src c) (c_dst c) (c_omap c) (c_visiting c) (c_tocopy c) (Some e).
+Definition pgc_fail (c : pg_cst) (e : pg_err) : pg_cst :=
+  mkPgCst (pgc_src c) (pgc_dst c) (pgc_omap c) (pgc_visiting c) (pgc_tocopy c) (Some e).
 
 (* isPagesObject / isPageObject of a foreign handle: qpdf()->doc().pages().all() first (this
    can fill - and repair - the SOURCE document's page cache), then the /Type test.
@@ -561,10 +561,10 @@ Definition c_fail (c : pg_cst) (e : pg_err) : pg_cst :=
 Definition pg_src_type_is (c : pg_cst) (h : pg_val) (t : pg_key) : pg_cst * bool :=
   match h with
   | PvRef _ =>
-      let '(src, e) := pg_all (c_src c) in
-      let c := mkPgCst src (c_dst c) (c_omap c) (c_visiting c) (c_tocopy c) (c_err c) in
+      let '(src, e) := pg_all (pgc_src c) in
+      let c := mkPgCst src (pgc_dst c) (pgc_omap c) (pgc_visiting c) (pgc_tocopy c) (pgc_err c) in
       match e with
-      | Some x => (c_fail c x, false)
+      | Some x => (pgc_fail c x, false)
       | None => (c, pg_is_dict_of_type (pd_store src) h t)
       end
   | _ => (c, false)
@@ -577,34 +577,34 @@ Definition pg_remove1 (x : N) (l : list N) : list N := filter (fun y => negb (x 
 Definition pg_reserve_head (h : pg_val) (top : bool) (c : pg_cst) : pg_cst * bool :=
   match h with
   | PvRef og =>
-      if pg_memN og (c_visiting c) then (c, false)
+      if pg_memN og (pgc_visiting c) then (c, false)
       else
-        let c := mkPgCst (c_src c) (c_dst c) (c_omap c) (og :: c_visiting c) (c_tocopy c) (c_err c) in
-        match pg_omap_find (c_omap c) og with
+        let c := mkPgCst (pgc_src c) (pgc_dst c) (pgc_omap c) (og :: pgc_visiting c) (pgc_tocopy c) (pgc_err c) in
+        match pg_omap_find (pgc_omap c) og with
         | Some l =>
-            let '(c, is_page) := if top then pg_src_type_is c h k_Page else (c, false) in
-            if top && is_page && pg_is_null (c_dst c) (PvRef l)
-            then (mkPgCst (c_src c) (c_dst c) (c_omap c) (c_visiting c) (og :: c_tocopy c) (c_err c), true)
-            else (mkPgCst (c_src c) (c_dst c) (c_omap c) (pg_remove1 og (c_visiting c)) (c_tocopy c) (c_err c), false)
+            let '(c, is_page) := if top then pg_src_type_is c h pgk_Page else (c, false) in
+            if top && is_page && pg_is_null (pgc_dst c) (PvRef l)
+            then (mkPgCst (pgc_src c) (pgc_dst c) (pgc_omap c) (pgc_visiting c) (og :: pgc_tocopy c) (pgc_err c), true)
+            else (mkPgCst (pgc_src c) (pgc_dst c) (pgc_omap c) (pg_remove1 og (pgc_visiting c)) (pgc_tocopy c) (pgc_err c), false)
         | None =>
             let '(d', l) :=
-              if pg_is_stream (pd_store (c_src c)) h
-              then pg_alloc (c_dst c) (PcStream [] [] 0)
-              else pg_alloc (c_dst c) (PcObj PvNull) in
-            let c := mkPgCst (c_src c) d' ((og, l) :: c_omap c) (c_visiting c) (c_tocopy c) (c_err c) in
-            let '(c, is_page) := if top then (c, false) else pg_src_type_is c h k_Page in
+              if pg_is_stream (pd_store (pgc_src c)) h
+              then pg_alloc (pgc_dst c) (PcStream [] [] 0)
+              else pg_alloc (pgc_dst c) (PcObj PvNull) in
+            let c := mkPgCst (pgc_src c) d' ((og, l) :: pgc_omap c) (pgc_visiting c) (pgc_tocopy c) (pgc_err c) in
+            let '(c, is_page) := if top then (c, false) else pg_src_type_is c h pgk_Page in
             if negb top && is_page
-            then (mkPgCst (c_src c) (c_dst c) (c_omap c) (pg_remove1 og (c_visiting c)) (c_tocopy c) (c_err c), false)
-            else (mkPgCst (c_src c) (c_dst c) (c_omap c) (c_visiting c) (og :: c_tocopy c) (c_err c), true)
+            then (mkPgCst (pgc_src c) (pgc_dst c) (pgc_omap c) (pg_remove1 og (pgc_visiting c)) (pgc_tocopy c) (pgc_err c), false)
+            else (mkPgCst (pgc_src c) (pgc_dst c) (pgc_omap c) (pgc_visiting c) (og :: pgc_tocopy c) (pgc_err c), true)
         end
   | _ => (c, true)
   end.
 
 (* the walk over the children (array items, non-null dictionary values, the dictionary of a stream) *)
 Definition pg_reserve_kids (rec : pg_val -> pg_cst -> pg_cst) (h : pg_val) (c : pg_cst) : pg_cst :=
-  let ss := pd_store (c_src c) in
+  let ss := pd_store (pgc_src c) in
   let on_dict (d : pg_dict) (c : pg_cst) :=
-    fold_left (fun c (kv : pg_key * pg_val) => if pg_is_null (pd_store (c_src c)) (snd kv) then c else rec (snd kv) c) d c in
+    fold_left (fun c (kv : pg_key * pg_val) => if pg_is_null (pd_store (pgc_src c)) (snd kv) then c else rec (snd kv) c) d c in
   match h with
   | PvRef og =>
       match pg_lookup ss og with
@@ -621,32 +621,32 @@ Definition pg_reserve_kids (rec : pg_val -> pg_cst -> pg_cst) (h : pg_val) (c : 
 (* visiting.erase(foreign) *)
 Definition pg_reserve_done (h : pg_val) (c : pg_cst) : pg_cst :=
   match h with
-  | PvRef og => mkPgCst (c_src c) (c_dst c) (c_omap c) (pg_remove1 og (c_visiting c)) (c_tocopy c) (c_err c)
+  | PvRef og => mkPgCst (pgc_src c) (pgc_dst c) (pgc_omap c) (pg_remove1 og (pgc_visiting c)) (pgc_tocopy c) (pgc_err c)
   | _ => c
   end.
 
 (* reserve_objects.  fuel bounds the depth of the walk. *)
 Fixpoint pg_reserve (fuel : nat) (h : pg_val) (top : bool) (c : pg_cst) : pg_cst :=
   match fuel with
-  | O => c_fail c PeUnm
+  | O => pgc_fail c PeUnm
   | S f =>
-    match c_err c with
+    match pgc_err c with
     | Some _ => c
     | None =>
-      let '(c, is_pages) := pg_src_type_is c h k_Pages in
-      match c_err c with
+      let '(c, is_pages) := pg_src_type_is c h pgk_Pages in
+      match pgc_err c with
       | Some _ => c
       | None =>
         if is_pages then c
         else
           let '(c, go) := pg_reserve_head h top c in
-          match c_err c with
+          match pgc_err c with
           | Some _ => c
           | None =>
             if negb go then c
             else
               let c := pg_reserve_kids (fun x c => pg_reserve f x false c) h c in
-              match c_err c with
+              match pgc_err c with
               | Some _ => c
               | None => pg_reserve_done h c
               end
@@ -708,17 +708,17 @@ Definition pg_replace_step (src : pg_doc) (omap : list (N * N))
 Definition pg_copied (src dst : pg_doc) (fid : N) : pg_doc * pg_doc * option pg_err * pg_val :=
   let c0 := mkPgCst src (pd_store dst) (pd_omap dst) [] [] None in
   let c := pg_reserve 200 (PvRef fid) true c0 in
-  let src := c_src c in
-  match c_err c with
-  | Some e => (src, pd_with_omap (pd_with_store dst (c_dst c)) (c_omap c), Some e, PvNull)
+  let src := pgc_src c in
+  match pgc_err c with
+  | Some e => (src, pd_with_omap (pd_with_store dst (pgc_dst c)) (pgc_omap c), Some e, PvNull)
   | None =>
       let '(ds, reg, e) :=
-        fold_left (pg_replace_step src (c_omap c)) (rev' (c_tocopy c)) (c_dst c, pd_reg dst, None) in
-      let dst := pd_with_reg (pd_with_omap (pd_with_store dst ds) (c_omap c)) reg in
+        fold_left (pg_replace_step src (pgc_omap c)) (rev' (pgc_tocopy c)) (pgc_dst c, pd_reg dst, None) in
+      let dst := pd_with_reg (pd_with_omap (pd_with_store dst ds) (pgc_omap c)) reg in
       match e with
       | Some _ => (src, dst, e, PvNull)
       | None =>
-          match pg_omap_find (c_omap c) fid with
+          match pg_omap_find (pgc_omap c) fid with
           | None => (src, dst, None, PvNull)          (* warning, direct null returned *)
           | Some l => (src, dst, None, PvRef l)
           end
@@ -751,19 +751,19 @@ Definition pg_insert_core (p : pg_doc) (ni : N) (pos : Z) : pg_doc * option pg_e
   match pg_root_pages p with
   | PvRef pn =>
       let s := pd_store p in
-      let s := pg_obj_set_key s ni k_Parent (PvRef pn) in
-      match pg_rv s (pg_hget s (PvRef pn) k_Kids) with
+      let s := pg_obj_set_key s ni pgk_Parent (PvRef pn) in
+      match pg_rv s (pg_hget s (PvRef pn) pgk_Kids) with
       | PvArr kids =>
-          match pg_hget s (PvRef pn) k_Kids with
+          match pg_hget s (PvRef pn) pgk_Kids with
           | PvRef _ => (pd_with_store p s, Some PeUnm)
           | _ =>
             let n := Z.to_nat pos in
             if Nat.ltb (length kids) n then (pd_with_store p s, Some PeUnm)
             else
               let kids' := pg_list_ins kids n (PvRef ni) in
-              let s := pg_obj_set_key s pn k_Kids (PvArr kids') in
+              let s := pg_obj_set_key s pn pgk_Kids (PvArr kids') in
               let npages := pg_len kids' in
-              let s := pg_obj_set_key s pn k_Count (PvInt npages) in
+              let s := pg_obj_set_key s pn pgk_Count (PvInt npages) in
               let all' := pg_list_ins (pd_all p) n ni in
               if negb (npages =? pg_len all')%Z then
                 (pd_with_all (pd_with_store p s) all', Some PeUnm)
@@ -845,13 +845,13 @@ Definition pg_erase_core (p : pg_doc) (og : N) (pos : Z) : pg_doc * option pg_er
   match pg_root_pages p with
   | PvRef pn =>
       let s := pd_store p in
-      match pg_hget s (PvRef pn) k_Kids with
+      match pg_hget s (PvRef pn) pgk_Kids with
       | PvArr kids =>
           let n := Z.to_nat pos in
           let kids' := pg_list_del kids n in
-          let s := pg_obj_set_key s pn k_Kids (PvArr kids') in
+          let s := pg_obj_set_key s pn pgk_Kids (PvArr kids') in
           let npages := pg_len kids' in
-          let s := pg_obj_set_key s pn k_Count (PvInt npages) in
+          let s := pg_obj_set_key s pn pgk_Count (PvInt npages) in
           let all' := pg_list_del (pd_all p) n in
           let m := pg_pos_erase (pd_pos p) og in
           if negb (npages =? pg_len all')%Z || Nat.leb (length (pd_all p)) n then
@@ -900,6 +900,11 @@ Definition pg_res_of (e : option pg_err) : pg_res := match e with Some x => PrEr
 Definition pg_og_of (w : pg_world) (h : pg_href) : N :=
   match pg_norm w h with PhObj _ i => i | PhDirect _ => 0 end.
 
+(* QPDF::findPage(QPDFObjectHandle&) (repair 87382fd8): an indirect handle that is owned by ANOTHER QPDF is rejected
+   (QPDFExc) before anything else happens; a direct handle has no owner and goes on with objgen (0,0) *)
+Definition pg_foreign_handle (w : pg_world) (d : bool) (h : pg_href) : bool :=
+  match pg_norm w h with PhObj b _ => negb (Bool.eqb b d) | PhDirect _ => false end.
+
 Definition pg_step (w : pg_world) (o : pg_op) : pg_world * pg_res :=
   match o with
   | PoAddPage d h first =>
@@ -907,7 +912,7 @@ Definition pg_step (w : pg_world) (o : pg_op) : pg_world * pg_res :=
       else
         (* getRoot()["/Pages"]["/Count"].getIntValueAsInt() is evaluated before insert *)
         let p := pg_get w d in
-        match pg_rv (pd_store p) (pg_hget (pd_store p) (pg_root_pages p) k_Count) with
+        match pg_rv (pd_store p) (pg_hget (pd_store p) (pg_root_pages p) pgk_Count) with
         | PvInt c => let '(w, e) := pg_insert w d h c in (w, pg_res_of e)
         | _ => (w, PrErr PeUnm)
         end
@@ -921,6 +926,7 @@ Definition pg_step (w : pg_world) (o : pg_op) : pg_world * pg_res :=
         | None => let '(w, e) := pg_insert w d h (pg_len (pd_all p)) in (w, pg_res_of e)
         end
   | PoAddPageAt d h before r =>
+      if pg_foreign_handle w d r then (w, PrErr PeQ) else
       let '(p, e, pos) := pg_find (pg_get w d) (pg_og_of w r) in
       let w := pg_put w d p in
       match e with
@@ -928,6 +934,7 @@ Definition pg_step (w : pg_world) (o : pg_op) : pg_world * pg_res :=
       | None => let '(w, e) := pg_insert w d h (if before then pos else pos + 1)%Z in (w, pg_res_of e)
       end
   | PoRemove d h =>
+      if pg_foreign_handle w d h then (w, PrErr PeQ) else
       let '(w, e) := pg_erase w d (pg_og_of w h) in (w, pg_res_of e)
   | PoShallowCopy d i =>
       let p := pg_get w d in
@@ -975,4 +982,4 @@ Definition pg_step (w : pg_world) (o : pg_op) : pg_world * pg_res :=
 
 (* marker (/Mk) of an object, used by observations *)
 Definition pg_marker (s : pg_store) (i : N) : option Z :=
-  match pg_hget s (PvRef i) k_Mk with PvInt z => Some z | _ => None end.
+  match pg_hget s (PvRef i) pgk_Mk with PvInt z => Some z | _ => None end.
